@@ -69,6 +69,9 @@ static inline void vp_entry_free(parsec_thread_mempool_t *mp, void *elt) { vp_en
 static parsec_atomic_lock_t slot_lock;
 static parsec_hash_table_item_t *slot;
 static int bad_nolock, bad_insert, bad_unlock, bad_key, ht_inited, ht_nb_bits;
+#ifdef VP_ENV_HOOK
+static int env_armed; static void vp_env_between_sections(void);
+#endif
 static int64_t slot_off;
 void parsec_hash_table_init(parsec_hash_table_t *ht, int64_t offset, int nb_bits, parsec_key_fn_t key_functions, void *data)
 { ht_nb_bits = nb_bits; (void)key_functions; (void)data; ht->elt_hashitem_offset = offset; slot_off = offset; slot = NULL; ht_inited++; }
@@ -76,7 +79,12 @@ void parsec_hash_table_fini(parsec_hash_table_t *ht) { (void)ht; }
 void parsec_hash_table_lock_bucket_handle(parsec_hash_table_t *ht, parsec_key_t key, parsec_key_handle_t *handle)
 { (void)ht; parsec_atomic_lock(&slot_lock); handle->key = key; handle->hash64 = (uint64_t)key; handle->hash = 0; if(key != THE_KEY) bad_key = 1; }
 void parsec_hash_table_unlock_bucket_handle_impl(parsec_hash_table_t *ht, const parsec_key_handle_t *handle, const char *file, int line)
-{ (void)ht; (void)handle; (void)file; (void)line; if(slot_lock == 0) bad_unlock = 1; parsec_atomic_unlock(&slot_lock); }
+{ (void)ht; (void)handle; (void)file; (void)line; if(slot_lock == 0) bad_unlock = 1; parsec_atomic_unlock(&slot_lock);
+#ifdef VP_ENV_HOOK
+  /* the bucket is free again: another thread may now perform complete repository calls on the key (modelled atomically by ha.c) */
+  if(env_armed && slot == NULL) vp_env_between_sections();
+#endif
+}
 static void *st_find(parsec_hash_table_t *ht, const parsec_key_handle_t *handle)
 { (void)ht; if(slot_lock == 0) bad_nolock = 1; if(handle->key != THE_KEY) bad_key = 1; return slot ? (void*)((char*)slot - slot_off) : NULL; }
 static void st_insert(parsec_hash_table_t *ht, const parsec_key_handle_t *handle, parsec_hash_table_item_t *item)
